@@ -25,6 +25,8 @@ import E2P.Model.Facade
 import E2P.Spec.FacadeSpec
 import E2P.Generated.Facade
 import E2P.Model.Graph
+import E2P.Model.Peg
+import E2P.Generated.Grammar
 import E2P.Generated.RuntimeConsts
 open E2P
 
@@ -502,6 +504,24 @@ def handleGraph (args : List String) : String :=
     let spec := if rs.any (onCycle g) then "EParser" else enc rs
     s!"{model} | {spec} | "
 
+/-! token-set parser: `pg <fuel> <entry class> k₁ … kₙ` (token classes only: parsing does not look at texts) -/
+def genGrammar : Grammar :=
+  { rules := E2P.Generated.grammarRules, control := E2P.Generated.grammarControl, composites := E2P.Generated.grammarCompositeNames }
+
+def handlePeg (args : List String) : String :=
+  match args with
+  | fuel :: entry :: kinds =>
+    match fuel.toNat? with
+    | none => "bad-op"
+    | some fuel =>
+      let toks : List Tok := kinds.map fun k => (k, "")
+      let m := match astBuild genGrammar fuel entry toks with
+        | .accept t => "A " ++ t.sexp
+        | .reject => "REJECT"
+        | .depth => "EUnmodelled"
+      s!"{m} | - | "
+  | _ => "bad-op"
+
 def handle (line : String) : String :=
   match tokens line with
   | "echo" :: rest =>
@@ -519,6 +539,7 @@ def handle (line : String) : String :=
   | "ex" :: rest => handleExec rest
   | "fc" :: rest => handleFacade rest
   | "gr" :: rest => handleGraph rest
+  | "pg" :: rest => handlePeg rest
   | _ => "bad-op"
 
 partial def loop (h : IO.FS.Stream) (out : IO.FS.Stream) : IO Unit := do
